@@ -62,6 +62,7 @@ def run(ctx) -> None:
     rep.rule("C06.R5", "one batch id per rename call", floor=1)
     rep.rule("C06.R6", "name-space discipline around GraphNode (qualifier inference)", floor=12)
     rep.rule("C06.R7", "reverse rename maps are inverted only over current names", floor=1)
+    rep.rule("C06.R9", "the node cache keys each argument under the function's own parameter name (the only place the wiring enters the key)", floor=1)
     rep.rule("C06.R8", "every derived node owns its rename history (no list shared with the node it was derived from)", floor=4)
 
     brm = db.func("nodes._rename.build_reverse_rename_map")
@@ -134,6 +135,19 @@ def run(ctx) -> None:
 
     # ---- R6 ---------------------------------------------------------------------
     check_qualifiers(ctx, "C06.R6")
+
+    # ---- R9: the node cache addresses arguments by the function's own parameter names --------------------------
+    # definition_hash ignores renames and the identity carries no input wiring, so two differently wired clones of one
+    # cached function differ in the key only through the argument mapping: keyed by current external names, a swap
+    # a<->b and the original share an entry (the renamed node is served f(a=5, b=3) for f(a=3, b=5))
+    from .c09 import cache_key_attrs
+
+    used9 = cache_key_attrs(ctx)
+    if used9 is None:
+        raise AnalysisError("compute_cache_key call not recognised")
+    cc9 = db.func("runners._shared.caching.check_cache")
+    ok9 = "map_inputs_to_params" in used9
+    rep.add("C06.R9", f"{cc9.qname}:arguments-under-parameter-names", ok9, cc9.loc(), "the cache key is built from map_inputs_to_params(inputs): each value is filed under the parameter that receives it" if ok9 else "the cache key is built from the collected inputs under their current external names: differently wired clones of one cached function that expose the same names share entries")
     check_executor_returns(ctx, "C06.R3")
 
     # ---- R8 ---------------------------------------------------------------------
